@@ -79,6 +79,13 @@ def build(spec):
         return df
     if k == 'series':
         return pd.Series(spec['data'], index=spec['index'], dtype=spec['dtype'], name=spec['name'])
+    if k == 'generated' and spec.get('reuse'):
+        def rows():                 # one row buffer, filled further between the yields (a running accumulator)
+            buf = []
+            for x in spec['items']:
+                buf.append(x)
+                yield buf
+        return rows()
     if k == 'generated':
         return (x for x in spec['items'])
     if k == 'listnumpy':
@@ -173,6 +180,8 @@ class RoundTrips(Suite):
                 dict(kind='json', value={'2020': 1, '0': {'007': [1], '7': 2}, '-1': 3, '1.5': 4, '²': 5}),
                 dict(kind='json', value=[{'10': 'a', '9': 'b'}, {'k': {'1': {'2': {}}}}]),
                 dict(kind='generated', items=[{'2020': 1}, {'0': {'00': 2}}]),
+                # a generator that yields one and the same object again and again, changed in between
+                dict(kind='generated', items=[1, 2, 3], reuse=True), dict(kind='generated', items=['a', {'k': 1}], reuse=True),
                 # object-dtype columns and series whose elements are all numbers, booleans, or numbers with None
                 dict(kind='frame', index=[0, 1, 2], columns=[['a', [1, 2, 3], 'object'], ['b', [1.5, None, 2.0], 'object'],
                                                             ['c', [True, False, True], 'object'], ['d', ['x', 1, None], 'object']]),
